@@ -13,10 +13,10 @@ RULE = (
     "drawn rotation of the unit list per quantity type and draw in quick, i.e. >= 1548 pairs per draw) x categories of the "
     "type x generated finite x, with b constructed 'exactly equal' (y=Convert(u->v,x), kept only when both cross "
     "conversions are float-exact), 'clearly above' and 'clearly below' (1e-6 relative in base units); Scalar and "
-    "FractionScalar (number only, and number+fraction for scale-only pairs); all of < <= > >= in both operand "
+    "FractionScalar (number only, number+fraction for scale-only pairs, and inside one unit the same amount split differently between number and fraction part); all of < <= > >= in both operand "
     "orders must equal the comparison of the two base amounts (UnitModel), never a>b and b>a, always a<=b or b<=a. "
     "Generated cross-type pairs (simple and derived) must raise TypeError for the four order operators. "
-    "(b) equality: Hypothesis-generated pools of 4..9 objects out of Quantity (simple/derived/empty/unknown, built by the constructor, a known unit given a caption), "
+    "(b) equality: Hypothesis-generated pools of 4..9 objects out of Quantity (simple/derived/empty/unknown, built by the constructor, a known unit given a caption, a derived one and its twin with the factors in the other order), "
     "Scalar, Array and FixedArray (list/tuple/ndarray of dtype float64, float32, int32, object; lengths 0..4), FractionScalar, FractionValue, Fraction, "
     "Curve, UnitSystem and unrelated objects (None, str, int, float, tuple, list, dict, object()), drawn from small "
     "alphabets so that equal twins occur; for every ordered pair ==/!= never raise, a==a, (a==b)==(b==a), "
@@ -98,8 +98,8 @@ class Order:
             y = db.Convert(qt, u, v, xt)
             if db.Convert(qt, v, u, y) != xt or not math.isfinite(y):
                 return xt, None
-            if frac:
-                return xt, None  # exact equality is only constructed for plain numbers
+            if frac and not (u == v and float(case["x"]) == math.floor(case["x"]) and abs(case["x"]) < 1e9 and frac[1] in (1, 2, 4, 8)):
+                return xt, None  # with a fraction part exact equality is only constructed inside one unit (dyadic part)
             return xt, y
         m = 1e-6 * scale if scale > 0 else um.slope[v]
         B = A + m if rel == "below" else A - m
@@ -197,6 +197,11 @@ class Order:
                         if scale_only and rel != "equal" and fracs:
                             f = fracs[(k + j) % len(fracs)]
                             self.check(dict(base, cls="FractionScalar", frac=list(f), x=float(math.floor(x)) if abs(x) < 1e12 else x))
+                        if v == u and rel == "equal":
+                            # the same amount split differently between number and fraction part (1 1/2 against 1.5)
+                            for f in ((1, 2), (3, 2), (5, 4), (-1, 4)):
+                                ctx.cls("equal_amounts_split_differently")
+                                self.check(dict(base, cls="FractionScalar", frac=list(f), x=float(math.floor(x)) if abs(x) < 1e9 else 7.0))
 
     # -- cross type ------------------------------------------------------------------------------
     def cross(self, case):
@@ -288,6 +293,12 @@ def build(spec):
             from barril.units import GetUnknownQuantity
 
             return GetUnknownQuantity(spec[2] or None)
+        if form == "derived_swapped":
+            # the same two factors written in the other order: another composing map (and another hash)
+            (u1, c1), (u2, c2), e2 = spec[2], spec[3], spec[4]
+            if c1 == c2:
+                return build(("quantity", "derived", spec[2], spec[3], e2))
+            return Quantity.CreateDerived(collections.OrderedDict([(c2, [u2, e2]), (c1, [u1, 1])]))
         if form == "derived":
             (u1, c1), (u2, c2), e2 = spec[2], spec[3], spec[4]
             return Quantity.CreateDerived(collections.OrderedDict([(c1, [u1, 1]), (c2, [u2, e2])])) if c1 != c2 else Quantity.CreateDerived(collections.OrderedDict([(c1, [u1, 1 + e2])])) if 1 + e2 != 0 else Quantity.CreateEmpty()
@@ -309,6 +320,27 @@ def build(spec):
     if k == "unitsystem":
         return UnitSystem(spec[1], spec[2], dict(spec[3]), spec[4])
     raise ValueError(spec)
+
+
+def _swap_derived(spec):
+    """the spec with every derived quantity in it written in the other factor order (None when it has none)"""
+    if isinstance(spec, (list, tuple)) and len(spec) >= 2 and spec[0] == "quantity" and spec[1] == "derived":
+        return ("quantity", "derived_swapped") + tuple(spec[2:])
+    if isinstance(spec, (list, tuple)) and spec and spec[0] in ("scalar", "array", "fixedarray"):
+        q = _swap_derived(spec[1])
+        return None if q is None else (spec[0], q) + tuple(spec[2:])
+    return None
+
+
+def with_twins(specs):
+    out = list(specs)
+    added = 0
+    for sp in specs:
+        tw = _swap_derived(sp)
+        if tw is not None and added < 2:
+            out.append(tw)
+            added += 1
+    return out
 
 
 def spec_strategy():
@@ -487,7 +519,7 @@ def run_shard(spec, ctx):
             pl = Pool(ctx)
 
             def t_pool():
-                @given(st.lists(spec_strategy(), min_size=4, max_size=9))
+                @given(st.lists(spec_strategy(), min_size=4, max_size=9).map(with_twins))
                 def test(specs):
                     pl.check({"specs": specs})
 
